@@ -179,11 +179,13 @@ pub struct ProgParams {
     pub allow_portal: bool,
     pub allow_reparent: bool,
     pub max_writes: usize,
+    /// Let programs declare boundary ports from a pool of three per instance.
+    pub ports: bool,
 }
 
 impl Default for ProgParams {
     fn default() -> Self {
-        Self { pool: 6, allow_delete_node: true, allow_portal: true, allow_reparent: true, max_writes: 2 }
+        Self { pool: 6, allow_delete_node: true, allow_portal: true, allow_reparent: true, max_writes: 2, ports: true }
     }
 }
 
@@ -390,6 +392,13 @@ pub fn gen_program(
             _ => continue,
         }
         written += 1;
+    }
+    // boundary ports: footprint-only declarations from a pool of three per instance
+    if pp.ports && rng.chance(1, 3) {
+        ops.push(Mop::ClaimPort { port: rng.below(3), out: rng.chance(1, 2) });
+        if rng.chance(1, 4) {
+            ops.push(Mop::ClaimPort { port: rng.below(3), out: rng.chance(1, 2) });
+        }
     }
     let mut p = Program {
         slot,
